@@ -22,6 +22,8 @@ use crate::CommandDefinition;
 pub struct RunReq {
     pub inputs: Vec<Vec<u8>>,
     pub pend: usize,
+    /// `RUNF`: the inputs go through `run_from` with the header path carried over.
+    pub from: bool,
     /// `ALLOC RUN`: quiet mode, the result is the number of heap allocations
     /// made between entering and leaving the `run` calls.
     pub alloc: bool,
@@ -35,8 +37,14 @@ pub fn run_with<I: TestIface, W: TestWriter>(req: &RunReq) -> String {
     iface.set_pend(req.pend);
     let mut writer = W::make(req.pend);
     let mut rest: Vec<String> = Vec::new();
+    let mut header = iface.root_node();
     for input in &req.inputs {
-        let remaining = block_on(iface.run(input, &mut writer));
+        let remaining = if req.from {
+            block_on(iface.run_from(&mut header, input, &mut writer))
+        }
+        else {
+            block_on(iface.run(input, &mut writer))
+        };
         rest.push(remaining.len().to_string());
     }
     let log = iface.log().join(";");
